@@ -157,3 +157,206 @@ def count_compare(got, want, syms, lo=1, hi=13):
         if g != w:
             return ("differs", {"env": env, "got": g, "want": w})
     return ("equal", None) if seen else None
+
+
+# ------------------------------------------------------------------------------ small integer arrays (bit tables)
+class _Arr:
+    """A tiny integer array (nested lists) with numpy's broadcasting for the few operations bit tables are built from."""
+
+    def __init__(self, data):
+        self.data = data
+
+    @property
+    def shape(self):
+        sh, d = [], self.data
+        while isinstance(d, list):
+            sh.append(len(d))
+            d = d[0] if d else None
+        return tuple(sh)
+
+
+def _bc(f, a, b):
+    da, db = (a.data if isinstance(a, _Arr) else a), (b.data if isinstance(b, _Arr) else b)
+
+    def rec(x, y):
+        lx, ly = isinstance(x, list), isinstance(y, list)
+        if not lx and not ly:
+            return f(x, y)
+        if lx and ly:
+            # align trailing axes
+            dx, dy = _depth(x), _depth(y)
+            if dx > dy:
+                return [rec(e, y) for e in x]
+            if dy > dx:
+                return [rec(x, e) for e in y]
+            if len(x) == len(y):
+                return [rec(e, g) for e, g in zip(x, y)]
+            if len(x) == 1:
+                return [rec(x[0], g) for g in y]
+            if len(y) == 1:
+                return [rec(e, y[0]) for e in x]
+            raise ValueError("broadcast")
+        if lx:
+            return [rec(e, y) for e in x]
+        return [rec(x, e) for e in y]
+
+    return _Arr(rec(da, db)) if isinstance(da, list) or isinstance(db, list) else f(da, db)
+
+
+def _depth(x):
+    d = 0
+    while isinstance(x, list):
+        d += 1
+        x = x[0] if x else None
+    return d
+
+
+def eval_array(term, env):
+    """Value of a term built from integer symbols, arange, pow, shifts, bitand, comparisons and basic indexing (slices, ints,
+    newaxis, ellipsis) under env {symbol: int}: an int, a bool or an _Arr; None when the term leaves this vocabulary.  Exact."""
+    try:
+        return _ev_arr(term, env)
+    except Exception:
+        return None
+
+
+def _ev_arr(t, env):
+    if isinstance(t, (int, Fraction)):
+        return int(t) if Fraction(t).denominator == 1 else None
+    if not isinstance(t, T.Poly):
+        return None
+    c = t.const_value()
+    if c is not None:
+        return int(c) if c.denominator == 1 else None
+    a = t.single_atom()
+    if a is None:
+        v = eval_count(t, env)
+        return int(v) if v is not None and v.denominator == 1 else None
+    if isinstance(a, T.Sym):
+        return env.get(a.name)
+    if not isinstance(a, T.App):
+        return None
+    ar = [(_ev_arr(x, env) if isinstance(x, (T.Poly, int, Fraction)) else x) for x in a.args]
+    if a.op == "arange":
+        if any(not isinstance(x, int) for x in ar):
+            return None
+        return _Arr(list(range(*ar)))
+    if a.op == "pow" and all(isinstance(x, int) for x in ar):
+        return ar[0] ** ar[1]
+    f2 = {"lshift": lambda x, y: x << y, "rshift": lambda x, y: x >> y, "bitand": lambda x, y: x & y, "bitor": lambda x, y: x | y,
+          "cmp_Gt": lambda x, y: x > y, "cmp_Lt": lambda x, y: x < y, "cmp_GtE": lambda x, y: x >= y, "cmp_LtE": lambda x, y: x <= y,
+          "cmp_Eq": lambda x, y: x == y, "cmp_NotEq": lambda x, y: x != y, "mod": lambda x, y: x % y, "floordiv": lambda x, y: x // y}
+    if a.op in f2 and len(ar) == 2 and all(isinstance(x, (int, bool, _Arr)) for x in ar):
+        return _bc(f2[a.op], ar[0], ar[1])
+    if a.op == "index" and isinstance(ar[0], _Arr):
+        spec = a.args[1]
+        data = ar[0].data
+        rank = _depth(data)
+        items = []
+        for s_ in spec:
+            if s_ == "ellipsis":
+                n_explicit = sum(1 for q in spec if q not in ("ellipsis", "none"))
+                items += [slice(None)] * (rank - n_explicit)
+            elif s_ == "none":
+                items.append(None)
+            elif isinstance(s_, tuple) and s_ and s_[0] == "slice":
+                vals = [(_ev_arr(q, env) if isinstance(q, (T.Poly, int, Fraction)) else q) for q in s_[1:]]
+                if any(v is not None and not isinstance(v, int) for v in vals):
+                    return None
+                items.append(slice(*vals))
+            else:
+                v = _ev_arr(s_, env) if isinstance(s_, (T.Poly, int, Fraction)) else None
+                if not isinstance(v, int):
+                    return None
+                items.append(v)
+
+        def take(d, its):
+            if not its:
+                return d
+            h, rest = its[0], its[1:]
+            if h is None:
+                return [take(d, rest)]
+            if isinstance(h, slice):
+                return [take(e, rest) for e in d[h]]
+            return take(d[h], rest)
+
+        return _Arr(take(data, items))
+    return None
+
+
+def arrays_equal(x, y):
+    dx, dy = (x.data if isinstance(x, _Arr) else x), (y.data if isinstance(y, _Arr) else y)
+    return dx == dy
+
+
+def partial_eval(p, env):
+    """Replace every maximal sub-term that eval_array can compute under env by a symbol naming its value; the rest of the term
+    is rebuilt unchanged.  Two terms that differ only in how they spell an integer table become equal."""
+    if isinstance(p, tuple):
+        return tuple(partial_eval(x, env) for x in p)
+    if not isinstance(p, T.Poly):
+        return p
+    total = T.ZERO
+    for mono, c in p.terms.items():
+        m = T.const(c)
+        for a, pw in mono:
+            m = m * T.powq(_pe_atom(a, env), pw)
+        total = total + m
+    return total
+
+
+def _pe_atom(a, env):
+    if isinstance(a, T.Sym):
+        return T.P(a)
+    if isinstance(a, T.App) and a.op in ("index", "arange", "lshift", "rshift", "bitand", "bitor", "cmp_Gt", "cmp_Lt", "cmp_GtE", "cmp_LtE", "cmp_Eq", "cmp_NotEq", "pow", "mod", "floordiv"):
+        v = eval_array(T.P(a), env)
+        if isinstance(v, _Arr):
+            return T.sym("tbl:%r" % (v.data,))
+        if isinstance(v, bool):
+            return T.sym("tbl:%r" % v)
+        if isinstance(v, int):
+            return T.const(v)
+    if isinstance(a, T.Exp):
+        return T.exp(partial_eval(a.arg, env))
+    if isinstance(a, T.App):
+        return T.rebuild(a.op, [partial_eval(x, env) for x in a.args])
+    return T.P(a)
+
+
+def table_syms(p):
+    """Integer symbols that occur inside arange / shift / pow sub-terms (the sizes a bit table is built from)."""
+    out = set()
+    for a in (p.all_atoms() if isinstance(p, T.Poly) else []):
+        if isinstance(a, T.App) and a.op in ("arange", "lshift", "rshift", "pow"):
+            for x in a.args:
+                if isinstance(x, T.Poly):
+                    out |= {s for s in x.syms() if not s.startswith(("lit:", "arr:"))}
+    return out
+
+
+def equal_by_tables(t1, t2, hi=3):
+    """True: equal after evaluating their integer tables for every size assignment in 1..hi; False: differ at some assignment
+    (returns (False, env)); None: nothing to evaluate / too many symbols."""
+    import itertools
+
+    syms = sorted(s for s in (table_syms(t1) | table_syms(t2)))
+    if not syms or len(syms) > 4:
+        return None
+    from .ops import DIM_BOUNDS  # a selection count never exceeds the length of the axis it was selected from
+
+    for vals in itertools.product(range(1, hi + 1), repeat=len(syms)):
+        env = dict(zip(syms, vals))
+        feasible = True
+        for s_, b_ in DIM_BOUNDS.items():
+            if s_ in env:
+                bv = eval_count(b_, env) if isinstance(b_, T.Poly) else None
+                if bv is not None and env[s_] > bv:
+                    feasible = False
+        if not feasible:
+            continue
+        try:
+            if partial_eval(t1, env) != partial_eval(t2, env):
+                return (False, env)
+        except Exception:
+            return None
+    return True
